@@ -550,8 +550,10 @@ func GenOp(t *rapid.T, m *Model, tr Traits, cfg *GenCfg) Op {
 			r := m.Reps[i]
 			o := Op{Kind: OpSaveSnapshots, Rep: i}
 			var si uint64
-			if r.Snap.Index > 0 && rapid.IntRange(0, 9).Draw(t, "stale") == 0 {
-				si = 1 + uint64(rapid.IntRange(0, int(r.Snap.Index-1)).Draw(t, "ssi"))
+			if r.Snap.Index > 1 && rapid.IntRange(0, 9).Draw(t, "stale") == 0 {
+				// an out-of-date local snapshot (strictly older than the newest
+				// record; the same index is never saved twice with different content)
+				si = 1 + uint64(rapid.IntRange(0, int(r.Snap.Index-2)).Draw(t, "ssi"))
 				o.Labels = append(o.Labels, "stale-snapshot")
 			} else {
 				switch rapid.IntRange(0, 2).Draw(t, "ssmode") {
